@@ -216,7 +216,11 @@ def run(chk):
     ok = bool(qr) and all(m_ == ("full", "economic") for m_ in modes)
     chk.ob("svd-mode", "svd_qn: QR mode follows full_matrices", ok, sq.where, [f"full_matrices=True -> {a!r}, False -> {b!r}" for a, b in modes], "'full' if full_matrices else 'economic'", line=sq.node.lineno)
     osv = [n for n in ast.walk(sq.node) if isinstance(n, ast.Call) and unparse(n.func) == "optimized_svd"]
-    ok = len(osv) == 1 and any(k.arg == "full_matrices" and unparse(k.value) == "full_matrices" for k in osv[0].keywords)
+    # the argument bound to optimized_svd's parameter `full_matrices` (by keyword or by position in that function's own signature) is svd_qn's flag
+    osp = [f_ for (r_, q_), f_ in src.funcs.items() if q_ == "optimized_svd" and f_.parent is None]
+    pos = osp[0].params().index("full_matrices") if osp and "full_matrices" in osp[0].params() else None
+    ok = len(osv) == 1 and (any(k.arg == "full_matrices" and unparse(k.value) == "full_matrices" for k in osv[0].keywords)
+                            or (pos is not None and len(osv[0].args) > pos and not any(isinstance(a_, ast.Starred) for a_ in osv[0].args[:pos + 1]) and unparse(osv[0].args[pos]) == "full_matrices"))
     chk.ob("svd-mode", "svd_qn: SVD receives full_matrices", ok, sq.where, [unparse(c)[:80] for c in osv], "optimized_svd(block, full_matrices=full_matrices, ...)")
     # ---- system / direction
     system_side_rule(chk, src, "system-direction")
